@@ -110,6 +110,14 @@ theorem src_mapShardsSubQuery_expected : src_mapShardsSubQuery = "subMin, subMax
 
 theorem src_getTargetShardMsg_expected : src_getTargetShardMsg = "{ var sources []Source var shardKeyInfo *meta2.ShardKeyInfo var engineTypes [config.ENGINETYPEEND]bool dbi, err := csm.MetaClient.Database(s.Database) if err != nil { return sources, nil, nil, engineTypes, err } if len(dbi.ShardKey.ShardKey) > 0 { shardKeyInfo = &dbi.ShardKey } measurements, err := csm.MetaClient.GetMeasurements(s) if err != nil || len(measurements) == 0 { return sources, nil, nil, engineTypes, err } for _, m := range measurements { sources = append(sources, Source{ Database: s.Database, RetentionPolicy: s.RetentionPolicy, Measurement: m.OriginName(), }) if !engineTypes[m.EngineType] { engineTypes[m.EngineType] = true s.EngineType = m.EngineType s.IndexRelation = &m.IndexRelation s.ObsOptions = m.ObsOptions s.IsTimeSorted = m.IsTimeSorted() } } return sources, shardKeyInfo, measurements, engineTypes, nil }" := by rfl
 
+/-! ### alive-shard lists (OG.C11.Alive) -/
+
+theorem src_GetAliveShards_expected : src_GetAliveShards = "{ if config.GetHaPolicy() != config.WriteAvailableFirst { return c.getAliveShardsForSSAndRep(database, sgi) } return c.getAliveShardsForWAF(database, sgi, isRead) }" := by rfl
+
+theorem src_getAliveShardsForWAF_expected : src_getAliveShardsForWAF = "{ c.mu.RLock() defer c.mu.RUnlock() if !read && config.IsHardWrite() { return c.getAliveShardsForHardWrite(database, sgi) } aliveShardIdxes := make([]int, 0, len(sgi.Shards)) for i := range sgi.Shards { if c.cacheData.PtView[database][sgi.Shards[i].Owners[0]].Status == meta2.Online { aliveShardIdxes = append(aliveShardIdxes, i) } } return aliveShardIdxes }" := by rfl
+
+theorem src_getAliveShardsForHardWrite_expected : src_getAliveShardsForHardWrite = "{ aliveShardIdxes := make([]int, 0, len(sgi.Shards)) for i := range sgi.Shards { aliveShardIdxes = append(aliveShardIdxes, i) } return aliveShardIdxes }" := by rfl
+
 theorem maxConditionTagGroups_expected : maxConditionTagGroups = 1024 := by rfl
 
 theorem generation_ok : generationFailed = false := by rfl
